@@ -5,13 +5,13 @@
    The model (CmpModel.v) describes /repo with findings D3, D4, D5 applied.
 
    Not proved here (correspondence only, see tools/props/c15.py):
-   - agreement of the bit-pattern model of double comparison (dbl_key) with
-     SpecFloat.SFcompare: the oracle uses SFcompare, the model dbl_key, and the
-     differential run compares both with the C++ on every generated pair;
    - key lookups after HashTable::Sort (generateHash; C13 owns that model);
-   - Array / HArray storage management and the Template loop around Sort. *)
+   - Array / HArray storage management and the Template loop around Sort;
+   - that the sort oracles (sortedb/permb) decide StronglySorted/Permutation
+     (they are small boolean programs, run on the implementation's output). *)
 From Coq Require Import NArith ZArith List Bool Permutation Sorted.
-From Qv Require Import gen.Tables_cmp CmpModel CmpProofs CmpProofsValue.
+From Coq Require Import Floats.SpecFloat.
+From Qv Require Import gen.Tables_cmp CmpModel CmpProofs CmpProofsValue CmpProofsDbl.
 Import ListNotations.
 Local Open Scope N_scope.
 
@@ -52,6 +52,12 @@ Print Assumptions c15_eq_is_identity.
 Theorem c15_six_operators : forall w a b, str_ops w a b = Some (ops_of_cmp (lex_cmp w a b)).
 Proof. exact str_ops_spec. Qed.
 Print Assumptions c15_six_operators.
+
+(* the model's six results satisfy the specification oracle for every pair of strings *)
+Theorem c15_str_model_meets_spec : forall w a b bits,
+  str_ops w a b = Some bits -> str_pair_oracle w a b bits = true.
+Proof. exact str_oracle_accepts_model. Qed.
+Print Assumptions c15_str_model_meets_spec.
 
 Theorem c15_prefix_sorts_first : forall w a x b,
   str_lt w a (a ++ x :: b) = true /\ str_gt w (a ++ x :: b) a = true /\
@@ -135,6 +141,20 @@ Theorem c15_value_kinds_distinct :
   NoDup [vt_undefined; vt_valueptr; vt_object; vt_array; vt_string; vt_uintlong; vt_intlong; vt_double; vt_true; vt_false; vt_null].
 Proof. exact ranks_distinct. Qed.
 Print Assumptions c15_value_kinds_distinct.
+
+(* doubles: the model's comparison of two bit patterns is SpecFloat's comparison of the decoded binary64 values *)
+Theorem c15_double_model_is_specfloat : forall a b, a < 2 ^ 64 -> b < 2 ^ 64 ->
+  SFcompare (sf_of_bits a) (sf_of_bits b) =
+  if dbl_isnan a || dbl_isnan b then None else Some (dbl_key a ?= dbl_key b)%Z.
+Proof. exact dbl_model_is_specfloat. Qed.
+Print Assumptions c15_double_model_is_specfloat.
+
+(* the model's five results satisfy the specification oracle (kind, then content; SpecFloat for doubles;
+   all five false when a NaN is compared with a double) for EVERY pair of values, NaN included *)
+Theorem c15_value_model_meets_spec : forall w a b, v_wf a -> v_wf b ->
+  val_pair_oracle w a b (v_ops w a b) = true.
+Proof. exact value_model_meets_spec. Qed.
+Print Assumptions c15_value_model_meets_spec.
 
 (** * Memory::Sort *)
 
